@@ -79,6 +79,39 @@ def dump(a):
             "flat": [None if m else item(v) for v, m in zip(data.tolist(), mask.tolist())]}
 
 
+def scribble(a):
+    """Overwrite, in place, an array that the implementation returned: if it is a
+    view of internal state, the next read shows the damage."""
+    try:
+        data = np.ma.getdata(a)
+        if data.dtype.kind in "US":
+            data[...] = "zz"
+        elif data.dtype.kind == "b":
+            data[...] = ~data
+        else:
+            data[...] = 77
+        m = getattr(a, "_mask", np.ma.nomask)
+        if m is not np.ma.nomask and getattr(m, "shape", ()) == data.shape:
+            m[...] = ~m
+    except Exception:  # read-only arrays cannot alias anything writable
+        pass
+
+
+ALIAS = []
+
+
+def dump_s(fn, name):
+    """dump(fn()), then scribble over the returned array and read again; a
+    difference is recorded under `name` in ALIAS."""
+    a = fn()
+    rec = dump(a)
+    scribble(a)
+    rec2 = dump(fn())
+    if rec2 != rec:
+        ALIAS.append({"what": name, "first": rec, "second": rec2})
+    return rec
+
+
 def guarded(fn):
     try:
         return {"ok": fn()}
@@ -131,7 +164,8 @@ def anc_arrays(d):
         except Exception:
             v = None
         if v is not None:
-            out[name] = [int(x) for x in np.array(v.data.array).reshape(-1).tolist()]
+            rec = dump_s(lambda: v.data.array, name + " variable")
+            out[name] = [None if x is None else int(x) for x in rec["flat"]]
     return out
 
 
@@ -191,6 +225,7 @@ def write_and_read(f, path, row):
             out["ncvar"] = h.nc_get_variable(None)
         return out
     row["reread"] = guarded(r)
+    row["reread_all"] = guarded(lambda: reread_all(path))
     try:
         os.remove(path)
     except OSError:
@@ -222,17 +257,21 @@ def do_array(c, row, scratch):
     row["ctype0"] = d.get_compression_type()
     row["shape"] = [int(n) for n in d.shape]
     row["dtype"] = str(d.dtype)
-    row["array"] = guarded(lambda: dump(d.array))
+    row["array"] = guarded(lambda: dump_s(lambda: d.array, "Data.array"))
     if c.get("idx") is not None:
         idx = conv_index(c["idx"])
 
         def sub():
             s = d[idx]
-            return {"a": dump(s.array), "ctype": s.get_compression_type()}
+            rec = dump_s(lambda: s.array, "subspace array")
+            # the subspace must not share anything with its parent either
+            scribble(s.array)
+            return {"a": rec, "ctype": s.get_compression_type(),
+                    "parent_after": dump(d.array), "again": dump(d[idx].array)}
         row["sub"] = guarded(sub)
     # state after the reads
     row["ctype1"] = d.get_compression_type()
-    row["carr1"] = guarded(lambda: dump(d.compressed_array))
+    row["carr1"] = guarded(lambda: dump_s(lambda: d.compressed_array, "Data.compressed_array"))
     row["anc1"] = anc_arrays(d)
     row["caxes"] = guarded(lambda: [int(x) for x in d.get_compressed_axes()])
     if c.get("expect") is not None and "ok" in row["array"]:
@@ -250,8 +289,9 @@ def do_array(c, row, scratch):
     if "ok" in row["array"]:
         def unc():
             u = d.uncompress()
-            return {"ctype_u": u.get_compression_type(), "a": dump(u.array),
-                    "ctype_d": d.get_compression_type()}
+            rec = dump_s(lambda: u.array, "uncompress().array")
+            return {"ctype_u": u.get_compression_type(), "a": rec,
+                    "ctype_d": d.get_compression_type(), "d_after": dump(d.array)}
         row["uncompress"] = guarded(unc)
     if c.get("assign") is not None and "ok" in row["array"]:
         pos, value = c["assign"]
@@ -276,34 +316,59 @@ def do_array(c, row, scratch):
         write_and_read(f, os.path.join(scratch, f"a{os.getpid()}_{row['i']}.nc"), row)
 
 
-def do_compress(c, row, scratch):
+def build_field(c, suffix=""):
+    """The uncompressed field of a compress case (netCDF names carry `suffix`)."""
     shape = tuple(c["shape"])
     method = c["method"]
     ftype = "timeSeriesProfile" if method == "indexed_contiguous" else "timeSeries"
     arr = to_always_masked(c["data"], shape, c["dtype"])
     f = field_from_data(cfdm.Data(arr), ftype)
+    if suffix:
+        f.nc_set_variable("tas" + suffix)
+        f.set_property("long_name", "field" + suffix)
+        for i, ax in enumerate(f.get_data_axes()):
+            f.domain_axis(ax).nc_set_dimension(f"dim{i}{suffix}")
     axes = list(f.get_data_axes())
     keys = {}
     if c.get("aux") is not None:
-        a = cfdm.AuxiliaryCoordinate(properties={"long_name": "aux0"},
+        a = cfdm.AuxiliaryCoordinate(properties={"long_name": "aux0" + suffix},
                                      data=cfdm.Data(to_always_masked(c["aux"], shape, c.get("aux_dtype", "f8"))))
-        a.nc_set_variable("aux0")
+        a.nc_set_variable("aux0" + suffix)
         if c.get("bounds"):
             b = np.ma.array(np.ma.stack([a.data.array, a.data.array + 1], axis=-1))
             a.set_bounds(cfdm.Bounds(data=cfdm.Data(b)))
         keys["aux"] = f.set_construct(a, axes=axes)
     if c.get("other") is not None:
-        o = cfdm.FieldAncillary(properties={"long_name": "anc0"},
+        o = cfdm.FieldAncillary(properties={"long_name": "anc0" + suffix},
                                 data=cfdm.Data(to_always_masked(c["other"], shape, c["dtype"])))
-        o.nc_set_variable("anc0")
+        o.nc_set_variable("anc0" + suffix)
         keys["other"] = f.set_construct(o, axes=axes)
     if c.get("aux2") is not None:
         # spans only the leading axes (one value per feature / per profile)
         a2shape = shape[:-1]
-        a2 = cfdm.AuxiliaryCoordinate(properties={"long_name": "aux2"},
+        a2 = cfdm.AuxiliaryCoordinate(properties={"long_name": "aux2" + suffix},
                                       data=cfdm.Data(to_always_masked(c["aux2"], a2shape, "f8")))
-        a2.nc_set_variable("aux2")
+        a2.nc_set_variable("aux2" + suffix)
         keys["aux2"] = f.set_construct(a2, axes=axes[:-1])
+    return f, keys
+
+
+def reread_all(path):
+    """every field of the file: compression type, array, arrays of the named constructs"""
+    out = {}
+    for h in cfdm.read(path):
+        ent = {"ctype": h.data.get_compression_type(), "array": dump(h.data.array), "cons": {}}
+        for cc in h.constructs.filter_by_data(todict=True).values():
+            nm = cc.nc_get_variable(None)
+            if nm is not None:
+                ent["cons"][nm] = dump(cc.data.array)
+        out[h.nc_get_variable(None)] = ent
+    return out
+
+
+def do_compress(c, row, scratch):
+    method = c["method"]
+    f, keys = build_field(c)
     f0 = f.copy()
     try:
         g = f.compress(method)
@@ -313,19 +378,20 @@ def do_compress(c, row, scratch):
     row["compress"] = {"ok": True}
     row["ctype"] = g.data.get_compression_type()
     row["anc"] = anc_arrays(g.data)
-    row["carr"] = guarded(lambda: dump(g.data.compressed_array))
-    row["array"] = guarded(lambda: dump(g.data.array))
+    row["carr"] = guarded(lambda: dump_s(lambda: g.data.compressed_array, "compressed_array of the compressed field"))
+    row["array"] = guarded(lambda: dump_s(lambda: g.data.array, "array of the compressed field"))
     row["f_unchanged"] = guarded(lambda: bool(f.equals(f0)) and f.data.get_compression_type() == "")
     row["g_eq_f"] = guarded(lambda: bool(g.equals(f0)))
     row["f_eq_g"] = guarded(lambda: bool(f0.equals(g)))
     cons = {}
     for name, key in keys.items():
         cc = g.construct(key)
-        ent = {"ctype": cc.data.get_compression_type(), "array": guarded(lambda: dump(cc.data.array))}
+        ent = {"ctype": cc.data.get_compression_type(),
+               "array": guarded(lambda: dump_s(lambda: cc.data.array, f"array of compressed construct {name}"))}
         if cc.data.get_compression_type():
-            ent["carr"] = guarded(lambda: dump(cc.data.compressed_array))
+            ent["carr"] = guarded(lambda: dump_s(lambda: cc.data.compressed_array, f"compressed_array of construct {name}"))
         if name == "aux" and c.get("bounds"):
-            ent["bounds"] = guarded(lambda: dump(cc.bounds.data.array))
+            ent["bounds"] = guarded(lambda: dump_s(lambda: cc.bounds.data.array, "bounds array"))
             ent["bounds_ctype"] = cc.bounds.data.get_compression_type()
             ent["bounds0"] = dump(f0.construct(key).bounds.data.array)
         cons[name] = ent
@@ -333,11 +399,74 @@ def do_compress(c, row, scratch):
 
     def unc():
         u = g.uncompress()
-        return {"ctype_u": u.data.get_compression_type(), "a": dump(u.data.array),
-                "u_eq_f": bool(u.equals(f0)), "ctype_g": g.data.get_compression_type()}
+        rec = dump_s(lambda: u.data.array, "array of the uncompressed field")
+        return {"ctype_u": u.data.get_compression_type(), "a": rec,
+                "u_eq_f": bool(u.equals(f0)), "ctype_g": g.data.get_compression_type(),
+                "g_after": dump(g.data.array)}
     row["uncompress"] = guarded(unc)
+    # after all the reads and the scribbling the compressed field is as it was
+    row["g_eq_f_end"] = guarded(lambda: bool(g.equals(f0)))
+    row["ctype_end"] = g.data.get_compression_type()
     if c.get("write"):
         write_and_read(g, os.path.join(scratch, f"c{os.getpid()}_{row['i']}.nc"), row)
+    post = c.get("post")
+    if post is not None:
+        # a longer history: compress, then assign to the data of the field or of
+        # one construct spanning the same axes, then write
+        kind, pos, value = post
+        v = cfdm.masked if value is None else value
+        mi = tuple(int(x) for x in np.unravel_index(pos, tuple(c["shape"])))
+        g2 = g.copy()
+        pr = {}
+        if kind == "data":
+            g2.data[mi] = v
+        else:
+            g2.construct(keys[kind]).data[mi] = v
+        pr["ctype_field"] = g2.data.get_compression_type()
+        pr["array"] = guarded(lambda: dump(g2.data.array))
+        pr["cons"] = {name: {"ctype": g2.construct(key).data.get_compression_type(),
+                             "array": guarded(lambda: dump(g2.construct(key).data.array))}
+                      for name, key in keys.items()}
+        # the field it was copied from is untouched
+        pr["orig_ctype"] = g.data.get_compression_type()
+        pr["orig_eq"] = guarded(lambda: bool(g.equals(f0)))
+        path = os.path.join(scratch, f"p{os.getpid()}_{row['i']}.nc")
+
+        def w():
+            cfdm.write(g2, path)
+            return True
+        pr["write"] = guarded(w)
+        if "ok" in pr["write"]:
+            pr["raw"] = guarded(lambda: raw_file(path))
+            pr["reread"] = guarded(lambda: reread_all(path))
+        try:
+            os.remove(path)
+        except OSError:
+            pass
+        row["post"] = pr
+
+
+def do_multi(c, row, scratch):
+    """several compressed fields written to ONE file"""
+    gs = []
+    for n, m in enumerate(c["members"]):
+        f, keys = build_field(m, suffix=f"_{n}")
+        gs.append(f.compress(m["method"]))
+    row["ctypes"] = [g.data.get_compression_type() for g in gs]
+    row["arrays"] = [dump(g.data.array) for g in gs]
+    path = os.path.join(scratch, f"m{os.getpid()}_{row['i']}.nc")
+
+    def w():
+        cfdm.write(gs, path)
+        return True
+    row["write"] = guarded(w)
+    if "ok" in row["write"]:
+        row["raw"] = guarded(lambda: raw_file(path))
+        row["reread"] = guarded(lambda: reread_all(path))
+    try:
+        os.remove(path)
+    except OSError:
+        pass
 
 
 def main():
@@ -349,12 +478,16 @@ def main():
     for i, c in enumerate(p["cases"]):
         row = {"i": i}
         try:
+            del ALIAS[:]
             if c["k"] == "compress":
                 do_compress(c, row, scratch)
+            elif c["k"] == "multi":
+                do_multi(c, row, scratch)
             else:
                 do_array(c, row, scratch)
         except Exception as e:  # noqa
             row["driver_error"] = type(e).__name__ + ": " + str(e)[:300]
+        row["alias"] = list(ALIAS)
         print(json.dumps(row), flush=True)
 
 
